@@ -1,4 +1,4 @@
-CONSTANTS Workers = {1,2} Ops = {"cleanup","failed"} Variant = "pop_stale" Late = TRUE
+CONSTANTS Workers = {1,2} Ops = {"cleanup","failed"} Variant = "pop_stale" Late = TRUE MainCtx = TRUE Recheck = TRUE
 SPECIFICATION Spec
 INVARIANTS NoRace CleanupOnce
 PROPERTY Termination
